@@ -27,6 +27,10 @@ class CompMixin:
         """Interpret an evaluated iterable as a Domain."""
         if isinstance(it, Bag):
             return st, Domain("set", kt=it.kt, dom=it.dom, elem=it.elem, et=it.et)
+        if isinstance(it, RangeVal) and it.step == -1:
+            n = z3.If(it.lo > it.hi, it.lo - it.hi, 0)
+            lo = it.lo
+            return st, Domain("seq", length=n, elem=lambda i: mk_int(lo - i), et=INT)
         if isinstance(it, RangeVal):
             n = z3.If(it.hi > it.lo, it.hi - it.lo, 0)
             lo = it.lo
@@ -324,8 +328,8 @@ class CompMixin:
 
 
 class RangeVal:
-    def __init__(self, lo, hi):
-        self.lo, self.hi = lo, hi
+    def __init__(self, lo, hi, step=1):
+        self.lo, self.hi, self.step = lo, hi, step     # step: the Python int 1 or -1
 
 
 class EnumVal:
